@@ -15,14 +15,18 @@ EXPLANATION = (
     'one slice of it re-attaches the removed prefix; R3 the full-fidelity visitor replays every node-typed field of every node '
     'class once, in textual order, then the node\'s whitespace, the raw printer emits the raw text of every terminal with the '
     'quotes/prefix the lexer stripped, node equality keeps positions; R4 from Lexer/Parser entry points only MesonException '
-    'subclasses escape: every partial operation (int, codecs.decode, next, subscripts, Optional attribute, assert, recursion) is '
+    'subclasses escape: every partial operation (int, codecs.decode, next, subscripts, sequence unpacking of a variable-length producer such as '
+    'str.split, Optional attribute, assert, recursion) is '
     'caught and converted or proven total from the token regex / guards; R5 every token kind whose regex admits a newline updates '
     'lineno and line_start consistently; R6 extents of call/array/dict/parenthesis nodes start at the first field and end one '
     'past the closing single-character token; R7 a child list that the visitor replays as a separate block is never stored into after '
     'the block that follows it (positional after keyword argument). R1 also requires the node of a token to be built before anything else '
     'claims the whitespace that follows it; R2 that an accumulating block flushes the buffer after its last consuming call; R3 that every '
     'node class is hashable (nodes are dictionary keys). Does NOT decide: a byte-for-byte round trip of a given file (implied by R1-R3 only), '
-    'whether the regexes split text as the language intends, ordering of whitespace relative to its node.')
+    'whether the regexes split text as the language intends, ordering of whitespace relative to its node - in particular, when the node of a '
+    'token is built from self.current before the token is consumed, whether the whitespace that follows the token is later claimed by a node '
+    'whose replay ends with that token (the claimant can be a caller or the enclosing code block; seed C02-r6-2); arity of unpacked values '
+    'whose length is a typing contract (function results, table entries) rather than fixed by the producing operation.')
 ASSUMPTIONS = [
     'calls that leave mparser.py (mlog, re, codecs apart from codecs.decode, str/list/dict methods) raise nothing but MesonException subclasses',
     'CPython >= 3.11 int(): only non power-of-two bases are subject to the 4300 digit limit',
